@@ -2044,6 +2044,156 @@ def generate_acc():
     return '\n'.join(lines) + '\n'
 
 
+# ---------------------------------------------------------------- translator to coq/UtilAst.v
+class UtilTranslator:
+    """list / dictionary helpers of utilities.py and the two type-directed wrappers of
+    base_expression/expression.py -> UtilAst.ufun (fail-closed)"""
+
+    def __init__(self, where, callables=()):
+        self.where = where
+        self.callables = set(callables)
+
+    def fail(self, what, node=None):
+        raise TieError('cannot translate %s in %s: %s' % (what, self.where, ast.dump(node)[:160] if node is not None else ''))
+
+    def opt(self, e):
+        return 'None' if e is None else '(Some %s)' % self.expr(e)
+
+    def expr(self, e):
+        if isinstance(e, ast.Name):
+            return '(UName %s)' % coq_str(e.id)
+        if isinstance(e, ast.Constant):
+            if e.value is None:
+                return 'UNoneLit'
+            if isinstance(e.value, int) and not isinstance(e.value, bool):
+                return '(UInt (%d))' % e.value
+            self.fail('literal', e)
+        if isinstance(e, ast.UnaryOp) and isinstance(e.op, ast.USub):
+            return '(UNeg %s)' % self.expr(e.operand)
+        if isinstance(e, ast.BinOp) and isinstance(e.op, ast.Add):
+            return '(UAdd %s %s)' % (self.expr(e.left), self.expr(e.right))
+        if isinstance(e, ast.BoolOp) and isinstance(e.op, ast.Or) and len(e.values) == 2:
+            return '(UOr %s %s)' % (self.expr(e.values[0]), self.expr(e.values[1]))
+        if isinstance(e, ast.Compare) and len(e.ops) == 1:
+            op, a, b = e.ops[0], e.left, e.comparators[0]
+            if isinstance(op, ast.GtE):
+                return '(UGe %s %s)' % (self.expr(a), self.expr(b))
+            if isinstance(op, ast.LtE):
+                return '(ULe %s %s)' % (self.expr(a), self.expr(b))
+            if isinstance(op, ast.NotIn):
+                return '(UNotIn %s %s)' % (self.expr(a), self.expr(b))
+            self.fail('comparison', e)
+        if isinstance(e, ast.Subscript) and isinstance(e.slice, ast.Slice) and e.slice.step is None:
+            return '(USlice %s %s %s)' % (self.expr(e.value), self.opt(e.slice.lower), self.opt(e.slice.upper))
+        if isinstance(e, ast.List):
+            return '(UList %s)' % coq_list([self.expr(x) for x in e.elts])
+        if isinstance(e, ast.Tuple) and len(e.elts) == 2:
+            return '(UTuple %s %s)' % (self.expr(e.elts[0]), self.expr(e.elts[1]))
+        if isinstance(e, ast.Lambda):
+            a = e.args
+            if (len(a.args) == 1 and not (a.kwonlyargs or a.kwarg or a.posonlyargs or a.vararg or a.defaults)
+                    and isinstance(e.body, ast.Call) and isinstance(e.body.func, ast.Name) and e.body.func.id == 'isinstance'
+                    and len(e.body.args) == 2 and not e.body.keywords
+                    and isinstance(e.body.args[0], ast.Name) and e.body.args[0].id == a.args[0].arg
+                    and isinstance(e.body.args[1], ast.Name) and e.body.args[1].id != a.args[0].arg):
+                return '(ULambdaIsInst %s)' % coq_str(e.body.args[1].id)
+            self.fail('lambda', e)
+        if isinstance(e, ast.Call) and not e.keywords:
+            f, a = e.func, e.args
+            if isinstance(f, ast.Name) and f.id == 'len' and len(a) == 1:
+                return '(ULen %s)' % self.expr(a[0])
+            if isinstance(f, ast.Name) and f.id == 'dict' and not a:
+                return 'UDictNew'
+            if isinstance(f, ast.Name) and f.id in self.callables and len(a) == 1:
+                return '(UApply1 %s %s)' % (coq_str(f.id), self.expr(a[0]))
+            if isinstance(f, ast.Name) and f.id in self.callables and len(a) == 2:
+                return '(UApply2 %s %s %s)' % (coq_str(f.id), self.expr(a[0]), self.expr(a[1]))
+            if isinstance(f, ast.Attribute) and f.attr == 'items' and not a:
+                return '(UItems %s)' % self.expr(f.value)
+            if isinstance(f, ast.Attribute) and isinstance(f.value, ast.Name) and f.value.id == 'util':
+                return '(UHelper %s %s)' % (coq_str(f.attr), coq_list([self.expr(x) for x in a]))
+        self.fail('expression', e)
+
+    def block(self, stmts):
+        out = []
+        for st in stmts:
+            if isinstance(st, ast.Expr) and isinstance(st.value, ast.Constant):
+                continue
+            out.append(self.stmt(st))
+        return coq_list(out)
+
+    def stmt(self, st):
+        if isinstance(st, ast.Return):
+            return '(USReturn %s)' % (self.expr(st.value) if st.value is not None else 'UNoneLit')
+        if isinstance(st, ast.If):
+            return '(USIf %s %s %s)' % (self.expr(st.test), self.block(st.body), self.block(st.orelse))
+        if isinstance(st, ast.For) and not st.orelse:
+            t, it = st.target, st.iter
+            if isinstance(t, ast.Name):
+                return '(USFor %s %s %s)' % (coq_str(t.id), self.expr(it), self.block(st.body))
+            if isinstance(t, ast.Tuple) and len(t.elts) == 2 and all(isinstance(x, ast.Name) for x in t.elts):
+                a, b = t.elts[0].id, t.elts[1].id
+                if isinstance(it, ast.Call) and isinstance(it.func, ast.Name) and it.func.id == 'enumerate' \
+                        and len(it.args) == 1 and not it.keywords:
+                    return '(USForEnum %s %s %s %s)' % (coq_str(a), coq_str(b), self.expr(it.args[0]), self.block(st.body))
+                return '(USFor2 %s %s %s %s)' % (coq_str(a), coq_str(b), self.expr(it), self.block(st.body))
+        if isinstance(st, ast.Assign) and len(st.targets) == 1:
+            t = st.targets[0]
+            if isinstance(t, ast.Name):
+                return '(USAssign %s %s)' % (coq_str(t.id), self.expr(st.value))
+            if isinstance(t, ast.Subscript) and isinstance(t.value, ast.Name) and not isinstance(t.slice, ast.Slice):
+                return '(USSetItem %s %s %s)' % (coq_str(t.value.id), self.expr(t.slice), self.expr(st.value))
+        if isinstance(st, ast.Expr) and isinstance(st.value, ast.Call) and not st.value.keywords \
+                and isinstance(st.value.func, ast.Attribute) and st.value.func.attr == 'append' and len(st.value.args) == 1:
+            tgt = st.value.func.value
+            if isinstance(tgt, ast.Name):
+                return '(USAppend %s %s)' % (coq_str(tgt.id), self.expr(st.value.args[0]))
+            if isinstance(tgt, ast.Subscript) and isinstance(tgt.value, ast.Name) and not isinstance(tgt.slice, ast.Slice):
+                return '(USAppendAt %s %s %s)' % (coq_str(tgt.value.id), self.expr(tgt.slice), self.expr(st.value.args[0]))
+        self.fail('statement', st)
+
+    def function(self, fd):
+        if getattr(fd, 'decorator_list', None):
+            self.fail('decorated function', fd)
+        a = fd.args
+        if a.kwonlyargs or a.kwarg or a.posonlyargs or a.vararg or a.defaults:
+            self.fail('parameters', fd)
+        params = [p.arg for p in a.args]
+        return '{| u_params := %s; u_body := %s |}' % (coq_list([coq_str(p) for p in params]), self.block(fd.body))
+
+
+UTIL_HELPERS = {
+    'list_without_entry_at': (), 'list_with_updated_entry_at': (), 'first_match_by_predicate': ('predicate',),
+    'partition_by_predicate': ('predicate',), 'group_by_key': ('key_from_value',), 'map_dictionary_values': ('update_value',),
+}
+UTIL_WRAPPERS = ('first_of_given_type', 'partition_by_given_type')
+
+
+def generate_util():
+    lines = ['(* GENERATED by harness/tie_extract.py: the current source of the list and dictionary helpers of',
+             '   utilities.py and of first_of_given_type / partition_by_given_type, translated into UtilAst.ufun',
+             '   -- do not edit *)',
+             'From Coq Require Import ZArith List String.', 'From SM Require Import UtilAst.',
+             'Import ListNotations.', 'Open Scope string_scope.', '']
+    t = parse(os.path.join(SRC, '_private', 'utilities.py'))
+    seen = set()
+    for node in t.body:
+        if isinstance(node, ast.FunctionDef) and node.name in UTIL_HELPERS:
+            tr = UtilTranslator('utilities.%s' % node.name, UTIL_HELPERS[node.name])
+            lines.append('Definition gen_util_%s : ufun := %s.' % (node.name, tr.function(node)))
+            seen.add(node.name)
+    t = parse(os.path.join(SRC, '_private', 'base_expression', 'expression.py'))
+    for node in t.body:
+        if isinstance(node, ast.FunctionDef) and node.name in UTIL_WRAPPERS:
+            tr = UtilTranslator('base_expression.expression.%s' % node.name)
+            lines.append('Definition gen_util_%s : ufun := %s.' % (node.name, tr.function(node)))
+            seen.add(node.name)
+    missing = (set(UTIL_HELPERS) | set(UTIL_WRAPPERS)) - seen
+    if missing:
+        raise TieError('helpers not found: %s' % sorted(missing))
+    return '\n'.join(lines) + '\n'
+
+
 def write_if_changed(path, text):
     old = open(path).read() if os.path.exists(path) else None
     if old != text:
@@ -2135,6 +2285,14 @@ def main():
         print('TIE-TRANSLATE-FAILED: %s' % ex)
     if write_if_changed(os.path.join(coqdir, 'GeneratedAcc.v'), atext):
         print('GeneratedAcc.v rewritten')
+    try:
+        utext = generate_util()
+    except (TieError, SyntaxError, OSError) as ex:
+        utext = ('(* GENERATED: the translator FAILED CLOSED: %s *)\n'
+                 'Definition util_translator_failed : False := I.\n') % str(ex).replace('*)', '* )')
+        print('TIE-TRANSLATE-FAILED: %s' % ex)
+    if write_if_changed(os.path.join(coqdir, 'GeneratedUtil.v'), utext):
+        print('GeneratedUtil.v rewritten')
     out = sys.argv[1] if len(sys.argv) > 1 else os.path.join(os.path.dirname(os.path.dirname(os.path.abspath(__file__))), 'coq', 'Generated.v')
     try:
         text = generate()
